@@ -46,7 +46,7 @@ fn expect(acc: &mut Acc, key: &str, want: &G, text: &str, what: &str) {
     }
 }
 
-const SEPS: [&str; 7] = ["", " ", "  ", "\n", "\t", "\u{c}", " # c\n"];
+const SEPS: [&str; 10] = ["", " ", "  ", "\n", "\t", "\u{c}", " # c\n", " #\n", " # a\rb\n", "\r\n"];
 
 fn allowed(sep: &str, glue: Glue) -> bool {
     match glue {
